@@ -29,6 +29,9 @@ def _check_if_redundant_slice(
     axes_const = axes.const_value
     steps_const = steps.const_value
 
+    if any(v.is_graph_input() for v in (starts, ends, axes, steps)):
+        logger.info("The value 'start', 'end', 'axis', 'step' is an overridable graph input.")
+        return False
     if starts_const is None or ends_const is None or axes_const is None or steps_const is None:
         logger.info("The value 'start', 'end', 'axis', 'step' is not statically known.")
         return False
